@@ -69,6 +69,14 @@ CLAIMS["C13"] = {
     "design_ref": "DESIGN.md §5 C13",
 }
 
+CLAIMS["C14"] = {
+    "technique": "static analysis: slack dataflow (lower bound on free ring slots across the full-buffer tests) at every store into message_buf, structural checks of the modular cursor arithmetic in flush_message, who-may-write, sibling agreement",
+    "text": "Decides the ring-buffer arithmetic on all paths: each store into the output ring happens at the producer with at least one free slot (including the CR LF pair and the re-test after a flush) and is followed by the modular advance and the length increment; "
+            "flush_message sends only the contiguous unsent chunk, advances the consumer modulo the size by the bytes actually sent and lowers the length by the same amount, and consumes nothing when send fails; only the ring API writes the three cursor fields. "
+            "In-order exactly-once delivery under arbitrary partial-write patterns is behavioural and not decided.",
+    "design_ref": "DESIGN.md §5 C14",
+}
+
 NOT_APPLICABLE = {
     "C18": "Line/trace correctness is a value-level question about run-length tables (encode in the code generator, decode in find_line); no clause of it is visible in the shape of the code, so static analysis gives no verdict (DESIGN.md §6).",
 }
